@@ -79,7 +79,7 @@ func checkDefs() map[string]CheckDef {
 			each("H_resume", l(44, 45), l(44, 45, 52, 53, 55), l(3), l(-1)),
 			each("H_resume", l(40, 44, 45), l(13), l(6), l(-1)),
 			each("H_resume", l(40, 45), l(14), l(5), l(-1)),
-			each("H_chain", l(40, 41), l(13), l(4, 5))),
+			each("H_chain", l(40, 41), l(13), l(7)), each("H_chainw", l(40, 41, 44), l(1, 3, 9, 29, 31), l(3))),
 		cat(each("H_resume", idsMsg, tplMsgHdr, l(6), l(-1)),
 			each("H_resume", l(40, 41, 44, 45), tplBoundary, l(5), l(-1)),
 			each("H_resume", idsMsgCaps, l(3, 4, 11, 12), l(5), l(-1)),
@@ -231,17 +231,18 @@ func checkDefs() map[string]CheckDef {
 		"k is a finite set, not every value 1..65535-len (universal over contents only); relocation of parsed URIs is C18")
 
 	add("C12",
-		cat(each("H_reset", l(0, 1, 2, 6, 8, 22, 23), l(0), l(4), l(0), l(4)),
-			each("H_reset", l(11, 12, 13, 14, 15), l(0), l(4), l(0), l(4)),
-			each("H_reset", l(16, 17, 18, 19), l(0), l(3), l(0), l(4)),
-			each("H_reset", l(30, 31, 32, 34, 35, 36), l(0), l(4), l(0), l(4)),
-			each("H_reset", l(5), l(23), l(3), l(24), l(3)),
-			each("H_reset", l(40, 44, 45), l(3, 4, 1), l(3), l(9, 3), l(2)),
-			each("H_reset", l(44), l(44, 45, 52, 55), l(3), l(3, 4), l(2))),
-		cat(each("H_reset", l(0, 1, 2, 6, 8, 23), l(0), l(5), l(0), l(5)),
-			each("H_reset", l(12, 13, 14, 16, 17, 19, 30, 31, 34, 35), l(0), l(5), l(0), l(4)),
-			each("H_reset", l(40, 44, 45, 46), l(3, 4, 1, 11), l(4), l(9, 3, 5), l(3))),
-		"history A (fully symbolic 3-5 bytes or a header template, abandoned at every symbolic cut incl. complete / failed) -> the type's Reset -> input B (4-5 symbolic bytes / template) vs. a new object with the same caller arrays: complete object state equal after reset (=> histories of any length), same verdict / offset / observables on B; all parser object types incl. caller arrays of capacity 0,1,2",
+		cat(each("H_reset", l(0, 1, 2, 6, 8, 22, 23), l(0), l(6), l(0), l(6)),
+			each("H_reset", l(11, 12, 13, 14, 15), l(0), l(6), l(0), l(5)),
+			each("H_reset", l(16, 17, 18, 19), l(0), l(6), l(0), l(5)),
+			each("H_reset", l(30, 31, 32, 34, 35, 36), l(0), l(6), l(0), l(5)),
+			each("H_reset", l(5), l(23, 24), l(4), l(24, 25), l(4)),
+			each("H_reset", l(40, 44, 45, 46), l(3, 4, 1, 11, 12), l(4), l(9, 3, 4), l(3)),
+			each("H_reset", l(44, 45), l(44, 45, 52, 55, 32, 34, 35), l(4), l(3, 4, 44), l(3)),
+			each("H_reset", l(12, 14, 16, 17), l(58, 59, 62), l(3), l(59, 0), l(4))),
+		cat(each("H_reset", l(0, 1, 2, 6, 8, 23), l(0), l(8), l(0), l(7)),
+			each("H_reset", l(12, 13, 14, 16, 17, 19, 30, 31, 34, 35), l(0), l(8), l(0), l(6)),
+			each("H_reset", l(40, 44, 45, 46), l(3, 4, 1, 11, 12, 44, 45), l(6), l(9, 3, 5, 44), l(4))),
+		"history A (fully symbolic 6 (8) bytes or a header / name-addr template with a 3-4 (6) byte window, abandoned at every symbolic cut incl. complete / failed) -> the type's Reset -> input B (5-6 (6-7) symbolic bytes / template) vs. a new object with the same caller arrays: complete object state equal after reset (=> histories of any length), same verdict / offset / observables on B; all parser object types incl. caller arrays of capacity 0,1,2",
 		"PsipURI (plain struct assignment), longer inputs")
 
 	add("C13",
@@ -297,9 +298,9 @@ func checkDefs() map[string]CheckDef {
 		"header sets other than the skeleton; more than 8 stored headers")
 
 	add("C20",
-		cat(each("H_C20_prefix", seq(1, 12), l(4)), each("H_C20_prefix", l(8), l(0, 3, 5)), each("H_C20_contains", seq(1, 12)), each("H_C20_cid", seq(1, 5))),
-		cat(each("H_C20_prefix", l(13, 14, 15), l(4)), each("H_C20_contains", l(13, 14)), each("H_C20_cid", l(6))),
-		"IP4Prefix on every byte string of length 1..12 (15), ContainsIP4 1..12 (14), GetCallIDSig flags 1..5 (6) vs. a non-incremental reference (four groups of 1-3 digits <= 255, maximal munch)",
+		cat(each("H_C20_prefix", seq(1, 12), l(4)), each("H_C20_prefix", l(8), l(0, 3, 5)), each("H_C20_contains", seq(1, 12)), each("H_C20_cid", l(0, 1, 2), l(0, 1, 2))),
+		cat(each("H_C20_prefix", l(13, 14, 15), l(4)), each("H_C20_contains", l(13, 14)), each("H_C20_cid", l(3), l(0, 1)), each("H_C20_cid", l(0, 1), l(3))),
+		"IP4Prefix on every byte string of length 1..12 (15), ContainsIP4 1..12 (14), GetCallIDSig flags on an address with 0..2 (3) symbolic bytes before and after, vs. a non-incremental reference (four groups of 1-3 digits <= 255, maximal munch)",
 		"longer strings")
 	return m
 }
